@@ -72,6 +72,12 @@ def collect(ctx):
     # methods of the crate's public data-model types are API-like and stay functions; helper structs that a refactor introduces
     # (stage records and the like) are private, so their methods remain candidates
     pub_adts = {a["path"] for a in f.items["adts"] if a.get("pub")}
+    # ... except the types that own the API entry points: a private method there is an extracted stage of an entry point
+    for name in ("xspace_entry", "rng_entry", "build_sampler"):
+        b = _try(getattr(R, name), None)
+        if b is not None:
+            st = f.ty((f.fns.get(b.path) or {}).get("impl_self") or "") or {}
+            pub_adts.discard(st.get("path"))
     for k, b in f.mir.items():
         fi = f.fns.get(b.path) or {}
         st = f.ty(fi.get("impl_self") or "") or {}
